@@ -272,6 +272,9 @@ type PErrCase struct {
 	Tokens []lexgen.ExpTok `json:"tokens"` // generated tokens with positions (the corrupted statement)
 	First  int             `json:"first"`  // index of the first corrupted token
 	Exact  bool            `json:"exact"`  // the parser must reject exactly at token First
+	// NoLookahead: token First is the second word of a compound keyword (GROUP BY): the word before it is
+	// part of what the parser accepted, so the location must be exactly First's
+	NoLookahead bool `json:"no_lookahead,omitempty"`
 	Kind   string          `json:"kind"`
 }
 
@@ -345,6 +348,10 @@ func oraclePErr(c PErrCase) error {
 		ft := c.Tokens[minInt(c.First, len(c.Tokens)-1)]
 		return fmt.Errorf("%s: error located at %d:%d (token %d) but the text is a viable prefix up to token %d at %d:%d", c.Kind, l.Line, l.Column, hit, c.First, ft.Line, ft.Col)
 	}
+	if c.NoLookahead && hit != c.First {
+		ft := c.Tokens[c.First]
+		return fmt.Errorf("%s: the offending word %q of the compound keyword is token %d at %d:%d, error located at %d:%d (token %d)", c.Kind, ft.Text, c.First, ft.Line, ft.Col, l.Line, l.Column, hit)
+	}
 	if c.Exact && hit != c.First && hit != lower {
 		ft := c.Tokens[c.First]
 		return fmt.Errorf("%s: offending token %q is token %d at %d:%d, error located at %d:%d (token %d)", c.Kind, ft.Text, c.First, ft.Line, ft.Col, l.Line, l.Column, hit)
@@ -383,7 +390,7 @@ func minInt(a, b int) int {
 var perrCheck = hx.NewCheck("parser_error_location", oraclePErr)
 
 func TestParserErrorLocation(t *testing.T) {
-	hx.Rule("parser_error_location", "G-SQL statement with one token-level corruption (delete/duplicate/swap/replace/insert/truncate, or a stray ']' that no viable prefix admits), laid out over several lines with comments, parsed with position tracking; a set error location must be the start of a token at or after the first corrupted token, and exactly the stray token for that family; the first error of recovery parsing of the same tokens must be located at the same place; non-trivial = corruption not on line 1; distinct = (kind, position, layout)")
+	hx.Rule("parser_error_location", "G-SQL statement with one token-level corruption (delete/duplicate/swap/replace/insert/truncate, or a stray ']' that no viable prefix admits, or WITHIN GROUP BY whose offender is the second word of a compound keyword), laid out over several lines with comments, parsed with position tracking; a set error location must be the start of a token at or after the first corrupted token, and exactly the stray token for that family; the first error of recovery parsing of the same tokens must be located at the same place; non-trivial = corruption not on line 1; distinct = (kind, position, layout)")
 	perrCheck.Rapid(t, hx.N(120000, 1200000), genParserErrorPositions)
 }
 
@@ -431,6 +438,20 @@ func genParserErrorPositions(rt *rapid.T) PErrCase {
 	st := sqlgen.Statement(g)
 	var r corrupt.Result
 	exact := false
+	if rapid.IntRange(0, 15).Draw(rt, "compound_family") == 0 {
+		// WITHIN GROUP must be followed by "(": in WITHIN GROUP BY the tokenizer's compound keyword GROUP BY
+		// is split into two parser tokens and the second one is the offender, wherever the layout puts it
+		var toks []sqlgen.Tok
+		for _, w := range strings.Fields("SELECT string_agg ( a , 'x' ) WITHIN GROUP BY ( ORDER BY a ) FROM t1") {
+			toks = append(toks, sqlgen.Tok{Text: w})
+		}
+		lx := sqlgen.Lexemes(toks)
+		f := lexgen.Features{StringStartsWithDoubledQuote: true, TrailingComment: true}
+		tx := lexgen.Render(lx, lexgen.GenSeps(rt, f, lx, "l"))
+		hx.Case("parser_error_location", tx.Tokens[9].Line > tx.Tokens[8].Line, "compound_second_word|"+strings.Join(tx.SepClass, ","), "kind_compound_second_word")
+		hx.Sample("parser_error_location", tx.Src)
+		return PErrCase{Src: tx.Src, Tokens: tx.Tokens, First: 9, Exact: true, NoLookahead: true, Kind: "compound_second_word"}
+	}
 	if rapid.IntRange(0, 2).Draw(rt, "family") > 0 {
 		if s, ok := corrupt.InsertStray(rt, st.Toks); ok {
 			r, exact = s, true
